@@ -294,8 +294,10 @@ async def run_case(backend, seed, counters, coverage):
                 if len(pushes) > limit:
                     viols.append({"key": ("%s/pushed-%d-times/%s" % (backend, len(pushes), "stored-overlap" if stored_possible else "after-eose")) if ev["id"] not in dup_ids
                                   else "%s/duplicate-submission-pushed-twice" % backend,
-                                  "msg": "[%s] event %s pushed %d times under %r (filters %s; EOSE at %s, event started #%d)"
-                                         % (backend, ev["id"][:10], len(pushes), g["sub"], json.dumps(g["filters"])[:160], g["eose"], X.start), "replay": rp})
+                                  "msg": "[%s] event %s pushed %d times under %r (filters %s; EOSE at %s, event started #%d done #%d; frames at %s; generation start #%d done #%s end %s@%s window_end #%d; submitted %d time(s), dup=%s)"
+                                         % (backend, ev["id"][:10], len(pushes), g["sub"], json.dumps(g["filters"])[:160], g["eose"], X.start, X.done, pushes, g["start"], g["done"],
+                                            g["end"], g["end_start"], g["window_end"], sum(1 for cc in range(nconn) for cm in cmds[cc] if cm.kind == "EVENT" and cm.event["id"] == ev["id"]),
+                                            ev["id"] in dup_ids), "replay": rp})
                 if def_open and must and stays:
                     bump(pairs, "definitely_open_must")
                     nontrivial.append(h([backend, seed, ev["id"], g["conn"], g["sub"], g["start"], "must"]))
